@@ -15,6 +15,7 @@ structure St where
   src : CVol := {}
   bak : CVol := {}
   synced : Bool := false       -- a backup ran and the source was not changed since
+  lastRun : String := ""       -- what the last backup run did after its local compaction ("" = no local compaction)
   lastSrc : Option (Nat × Option (Nat × String)) := none   -- (id, the implementation's read of the source) of the previous line
 
 def readToks (o : Option (Nat × Content)) (notfound : ROut) (ck : Nat) : List String :=
@@ -59,8 +60,11 @@ def stepLine (st : St) (n : Nat) (ln : Line) : St × List String :=
       (if grew ∧ ¬ r ∧ st.bak.v.log.length ≠ 0 then ["COV backup.incremental-copy"] else []) ++
       (if st.bak.v.log.length = 0 ∧ grew then ["COV backup.full-copy"] else []) ++
       (if ¬ grew then ["COV backup.nothing-to-copy"] else []) ++
+      (if c ∧ ¬ r ∧ grew then ["COV backup.local-compaction-then-copy"] else []) ++
+      (if c ∧ r then ["COV backup.local-compaction-then-recreated"] else []) ++
       (if st.src.rev = 0 then ["COV backup.source-never-compacted"] else ["COV backup.source-compacted"])
-    ({ st with bak := b', synced := true, lastSrc := none },
+    let kind := if c ∧ ¬ r ∧ grew then "copy" else if c ∧ r then "recreated" else if c then "idle" else ""
+    ({ st with bak := b', synced := true, lastSrc := none, lastRun := kind },
       diff n ln ["ok", b01 c, b01 r, toString (datSize b'.v.log), toString (datSize st.src.v.log)] ++ cov)
   | "br" =>
     let id := tokNat (a.getD 0 "0"); let ck := tokNat (a.getD 1 "0")
@@ -69,8 +73,8 @@ def stepLine (st : St) (n : Nat) (ln : Line) : St × List String :=
         match st.lastSrc with
         | some (sid, sv) =>
           if sid ≠ id then [] else
-          (match classify st.src.rev sv (implObs ln.outs) with
-           | none => ["COV br.converged"]
+          (match classify st.src.rev sv (obs (backupView st.bak n id)) (implObs ln.outs) with
+           | none => ["COV br.converged"] ++ (if st.lastRun ≠ "" ∧ sv.isSome then [s!"COV br.converged-after-local-compaction-{st.lastRun}"] else [])
            | some cls => [specfail n cls s!"br {id}"])
         | none => []
       else []
